@@ -51,14 +51,14 @@ int main(void)
     printf("{\"e\":\"end\",\"n\":%d,\"cmd\":\"init\"}\n", step);
 
     while (fgets(line, sizeof(line), stdin)) {
-        if (sscanf(line, "reg %1000s", a) == 1) {
-            begin("reg");
-            log_type_register(a, NULL);
-            printf("{\"e\":\"end\",\"n\":%d,\"cmd\":\"reg\"}\n", step);
-        } else if (sscanf(line, "regdef %1000s %1000s", a, b) == 2) {
+        if (sscanf(line, "regdef %1000s %1000s", a, b) == 2) {
             begin("regdef");
             log_type_register(a, b);
             printf("{\"e\":\"end\",\"n\":%d,\"cmd\":\"regdef\"}\n", step);
+        } else if (!strncmp(line, "reg ", 4) && sscanf(line, "reg %1000s", a) == 1) {
+            begin("reg");
+            log_type_register(a, NULL);
+            printf("{\"e\":\"end\",\"n\":%d,\"cmd\":\"reg\"}\n", step);
         } else if (sscanf(line, "load %1000s", a) == 1) {
             begin("load");
             rc = conf_read(a);
